@@ -80,6 +80,7 @@ func runWorker(args []string) {
 	c.Seed = int64(envInt("VERIF_SEED", 0))
 	mf, _ := os.OpenFile(filepath.Join(outdir, fmt.Sprintf("marker.%d", w)), os.O_CREATE|os.O_RDWR|os.O_TRUNC, 0644)
 	c.marker = mf
+	c.violLog, _ = os.OpenFile(filepath.Join(outdir, fmt.Sprintf("violations.%d.%d.jsonl", w, start)), os.O_CREATE|os.O_WRONLY|os.O_APPEND, 0644)
 	unitFile, _ := os.OpenFile(filepath.Join(outdir, fmt.Sprintf("unit.%d", w)), os.O_CREATE|os.O_RDWR|os.O_TRUNC, 0644)
 	units := ch.Units(tier)
 	for u := start; u < units; u += nw {
@@ -314,7 +315,6 @@ func runParent(id string, tier Tier) int {
 		if len(merged.Samples) < 24 {
 			merged.Samples = append(merged.Samples, r.Samples...)
 		}
-		merged.Violations = append(merged.Violations, r.Violations...)
 		merged.ViolationsN += r.ViolationsN
 		for _, cp := range r.Caps {
 			merged.Caps = appendUniq(merged.Caps, cp)
@@ -324,6 +324,18 @@ func runParent(id string, tier Tier) int {
 		merged.DistinctCap = merged.DistinctCap || r.DistinctCap
 		if r.DistinctFile != "" {
 			distinctFiles = append(distinctFiles, r.DistinctFile)
+		}
+	}
+	// violations are read from the write-through logs (they survive a crashed worker)
+	vfiles, _ := filepath.Glob(filepath.Join(scratch, "violations.*.jsonl"))
+	sort.Strings(vfiles)
+	for _, vf := range vfiles {
+		b, _ := os.ReadFile(vf)
+		for _, line := range bytes.Split(b, []byte("\n")) {
+			var v Violation
+			if len(line) > 0 && json.Unmarshal(line, &v) == nil {
+				merged.Violations = append(merged.Violations, v)
+			}
 		}
 	}
 	for k, m := range sets {
